@@ -24,7 +24,7 @@ Drew(r) == \E j \in 1..Len(r.calls) : r.calls[j].u = 0 /\ r.calls[j].k = "flush"
 TabInCalls(r) == \E j \in 1..Len(r.calls) : r.calls[j].u = 0 /\ HasTab(r.calls[j].c)
 
 InitOf(r) ==
-    LET S0 == SInit(r.cfg.w, r.cfg.h, r.cfg.multi, r.cfg.mphid, r.cfg.align)
+    LET S0 == [SInit(r.cfg.w, r.cfg.h, r.cfg.multi, r.cfg.mphid, r.cfg.align) EXCEPT !.pty = r.cfg.pty]
         T0 == Calls(TInit(r.cfg.w, r.cfg.h), r.calls)
         base == SelectSeq(r.calls, LAMBDA x : x.u = 1 /\ x.k = "line")
     IN [S |-> [S0 EXCEPT !.above = [j \in 1..Len(base) |-> LogItem(base[j].c)]], T |-> T0]
@@ -69,7 +69,8 @@ Step(S0, T0, r) ==
     LET res == Apply(S0, r)
         S1 == res.S
         T1 == Calls(T0, r.calls)
-        drew == Drew(r)
+        (* behind a real Term only bytes are visible: a forced paint of an empty frame with nothing to erase writes none *)
+        drew == Drew(r) \/ (S0.pty /\ res.forced /\ r.calls = <<>>)
         items == [j \in 1..Len(res.log) |-> LogItem(res.log[j])]
         quietS == [S1 EXCEPT !.above = S1.above \o items]
     IN
